@@ -1,0 +1,53 @@
+//go:build verif
+
+// Verification hook (add-only, build tag verif): lets /verif/harness run one rebalance
+// round and single swapShard calls of the real nodeBasedBalancer without its background
+// goroutines. No logic of its own.
+package balancer
+
+import (
+	"context"
+	"log/slog"
+	"sync"
+
+	"github.com/emirpasic/gods/v2/sets/linkedhashset"
+
+	"github.com/oxia-db/oxia/coordinator/model"
+	"github.com/oxia-db/oxia/coordinator/resources"
+	"github.com/oxia-db/oxia/coordinator/selectors"
+	"github.com/oxia-db/oxia/coordinator/selectors/single"
+)
+
+type VerifBalancer struct{ r *nodeBasedBalancer }
+
+func NewVerifBalancer(status resources.StatusResource, config resources.ClusterConfigResource,
+	algo selectors.LoadRatioAlgorithm, actionBuffer int) *VerifBalancer {
+	ctx, cancel := context.WithCancel(context.Background())
+	return &VerifBalancer{r: &nodeBasedBalancer{
+		WaitGroup:          &sync.WaitGroup{},
+		Logger:             slog.With(slog.String("component", "load-balancer")),
+		ctx:                ctx,
+		cancel:             cancel,
+		actionCh:           make(chan Action, actionBuffer),
+		statusResource:     status,
+		configResource:     config,
+		selector:           single.NewSelector(),
+		loadRatioAlgorithm: algo,
+		quarantineNodeMap:  sync.Map{},
+		swappedShards:      make(map[int64]struct{}),
+		triggerCh:          make(chan struct{}, 1),
+	}}
+}
+
+// Actions is the channel the coordinator's action worker reads.
+func (b *VerifBalancer) Actions() <-chan Action { return b.r.Action() }
+
+// Rebalance runs one round (blocks until every emitted action is Done).
+func (b *VerifBalancer) Rebalance() { b.r.rebalanceEnsemble() }
+
+// SwapShard is nodeBasedBalancer.swapShard.
+func (b *VerifBalancer) SwapShard(shard *model.ShardLoadRatio, from model.Server, group *sync.WaitGroup,
+	ratios *model.Ratio, candidates *linkedhashset.Set[string], metadata map[string]model.ServerMetadata,
+	status *model.ClusterStatus) (bool, error) {
+	return b.r.swapShard(shard, from, group, ratios, candidates, metadata, status)
+}
